@@ -11,7 +11,7 @@
         in the statement, by in-kernel evaluation of the model of reduce. *)
 From LC Require Import Spec.Encodings Spec.Confluence Spec.NorEval Model.Reduction Gen.Terms
   Proofs.Sound Proofs.ReduceProps Proofs.Normalise Proofs.Convert
-  Proofs.ScottArith Proofs.ParigotArith Proofs.StumpFuArith Proofs.BinaryArith.
+  Proofs.ScottArith Proofs.ParigotArith Proofs.StumpFuArith Proofs.BinaryArith Proofs.Returns.
 
 Theorem C14_scott : forall m n,
   red (App lc_num_scott_succ (scott n)) (scott (S n)) /\
@@ -123,6 +123,50 @@ Theorem C14_nor_binary_succ : forall n, exists fuel c,
   reduce_m fuel NOR 0 (App lc_num_binary_succ (binary n)) = Some (binary (S n), c).
 Proof. intros. apply nor_normalises; [apply binary_succ|apply binary_nf]. Qed.
 
+(** the property as stated: what [reduce] returns under the two normalising orders, for ALL m, n *)
+Theorem C14_reduce_returns : forall o m n, lazy o ->
+  returns o (App lc_num_scott_succ (scott n)) (scott (S n)) /\
+  returns o (App lc_num_scott_pred (scott n)) (scott (pred n)) /\
+  returns o (App lc_num_scott_is_zero (scott n)) (bool_t (n =? 0)) /\
+  returns o (App (App lc_num_scott_add (scott m)) (scott n)) (scott (m + n)) /\
+  returns o (App (App lc_num_scott_mul (scott m)) (scott n)) (scott (m * n)) /\
+  returns o (App (App lc_num_scott_pow (scott m)) (scott n)) (scott (m ^ n)) /\
+  returns o (App lc_num_parigot_succ (parigot n)) (parigot (S n)) /\
+  returns o (App lc_num_parigot_pred (parigot n)) (parigot (pred n)) /\
+  returns o (App lc_num_parigot_is_zero (parigot n)) (bool_t (n =? 0)) /\
+  returns o (App (App lc_num_parigot_add (parigot m)) (parigot n)) (parigot (m + n)) /\
+  returns o (App (App lc_num_parigot_sub (parigot m)) (parigot n)) (parigot (m - n)) /\
+  returns o (App (App lc_num_parigot_mul (parigot m)) (parigot n)) (parigot (m * n)) /\
+  returns o (App lc_num_stumpfu_succ (stumpfu n)) (stumpfu (S n)) /\
+  returns o (App lc_num_stumpfu_pred (stumpfu n)) (stumpfu (pred n)) /\
+  returns o (App lc_num_stumpfu_is_zero (stumpfu n)) (bool_t (n =? 0)) /\
+  returns o (App (App lc_num_stumpfu_add (stumpfu m)) (stumpfu n)) (stumpfu (m + n)) /\
+  returns o (App (App lc_num_stumpfu_mul (stumpfu m)) (stumpfu n)) (stumpfu (m * n)) /\
+  returns o (App lc_num_binary_succ (binary n)) (binary (S n)) /\
+  returns o (App lc_num_binary_strip (App lc_num_binary_pred (binary n))) (binary (pred n)) /\
+  returns o (App lc_num_binary_strip (App lc_num_binary_shl0 (binary n))) (binary (2 * n)) /\
+  returns o (App lc_num_binary_shl1 (binary n)) (binary (2 * n + 1)) /\
+  returns o (App lc_num_binary_lsb (binary n)) (bool_t (Nat.even n)) /\
+  returns o (App lc_num_binary_is_zero (binary n)) (bool_t (n =? 0)) /\
+  returns o (App lc_num_binary_strip (binary n)) (binary n) /\
+  returns o (App lc_num_church_to_scott (church n)) (scott n) /\
+  returns o (App lc_num_church_to_parigot (church n)) (parigot n) /\
+  returns o (App lc_num_church_to_stumpfu (church n)) (stumpfu n) /\
+  returns o (App lc_num_scott_to_church (scott n)) (church n) /\
+  returns o (App lc_num_stumpfu_to_church (stumpfu n)) (church n) /\
+  returns o (App lc_num_stumpfu_to_scott (stumpfu n)) (scott n) /\
+  returns o (App lc_num_stumpfu_to_parigot (stumpfu n)) (parigot n).
+Proof.
+  intros o m n L.
+  destruct (C14_scott m n) as (S1 & S2 & S3 & S4 & S5 & S6).
+  destruct (C14_parigot m n) as (P1 & P2 & P3 & P4 & P5 & P6).
+  destruct (C14_stumpfu m n) as (F1 & F2 & F3 & F4 & F5).
+  destruct (C14_binary n) as (B1 & B2 & B3 & _ & B5 & B6 & B7 & B8).
+  destruct (C14_conversions n) as (V1 & V2 & V3 & V4 & V5 & V6 & V7).
+  repeat split; apply (lazy_returns o); auto;
+    first [apply scott_nf | apply parigot_nf | apply stumpfu_nf | apply binary_nf | apply church_nf | apply bool_nf].
+Qed.
+
 Print Assumptions C14_scott.
 Print Assumptions C14_parigot.
 Print Assumptions C14_stumpfu.
@@ -135,3 +179,4 @@ Print Assumptions C14_hno_returns.
 Print Assumptions C14_any_order_sound.
 Print Assumptions C14_hno_scott_pow.
 Print Assumptions C14_nor_binary_succ.
+Print Assumptions C14_reduce_returns.
